@@ -22,7 +22,7 @@ import subprocess
 import vlib
 
 CRLF = b"\r\n"
-DRIFT_HASH = "ad383d914dee"  # normalised text of the anchored functions when the model was written
+DRIFT_HASH = "cb91433370bf"  # normalised text of the anchored functions when the model was written
 
 
 # ------------------------------------------------------------------ helpers
@@ -126,10 +126,14 @@ def gen_value(r, w):
 
 def gen_addr(r, w):
     n = r.choice([1, 1, 2, 2, 3, 4, 6])
+    one = r.randrange(n) if r.random() < 0.7 else None      # mostly exactly one socket key, anywhere in the list
     pairs = []
-    for _ in range(n):
+    for i in range(n):
         k = r.random()
-        key = b"path" if k < 0.3 else (b"abstract" if k < 0.55 else r.choice(KEYS))
+        if one is not None:
+            key = r.choice([b"path", b"abstract"]) if i == one else r.choice([x for x in KEYS if x not in (b"path", b"abstract")])
+        else:
+            key = b"path" if k < 0.3 else (b"abstract" if k < 0.55 else r.choice(KEYS))
         pairs.append(key + b"=" + gen_value(r, w).replace(b",", b""))
     return b"unix:" + b",".join(pairs)
 
@@ -194,31 +198,32 @@ def addr_expected(w, model_line):
 
 
 def strict_supported(addr):
-    """the property's 'address of the supported kind', read strictly: unix transport, every pair k=v with
-    non-empty key, at least one path|abstract key. Returns (is_path, value) of the first such key or None."""
+    """the property's 'address of the supported kind' (independent of the model): UTF-8, no ';', "unix:" followed
+    by comma-separated key=value pairs, exactly one of them with key path|abstract, that value not empty.
+    Returns (is_path, value) or None."""
     try:
         addr.decode("utf-8")
     except UnicodeDecodeError:
         return None
-    if not addr.startswith(b"unix:"):
+    if b";" in addr or not addr.startswith(b"unix:"):
         return None
-    first = None
+    socks = []
     for pair in addr[5:].split(b","):
         if b"=" not in pair:
             return None
         k, v = pair.split(b"=", 1)
-        if k == b"":
-            return None
-        if first is None and k in (b"path", b"abstract"):
-            first = (k == b"path", v)
-    return first
+        if k in (b"path", b"abstract"):
+            socks.append((k == b"path", v))
+    if len(socks) != 1 or socks[0][1] == b"":
+        return None
+    return socks[0]
 
 
 def judge_addr(w, addr, impl, model):
     """None when the implementation's own output satisfies the property text on this address"""
     if impl == "PANIC":
         return "address resolution panicked"
-    sup = strict_supported(addr)
+    sup = strict_supported(addr) if addr is not None else None
     if sup is not None:
         is_path, v = sup
         if is_path:
@@ -226,12 +231,10 @@ def judge_addr(w, addr, impl, model):
         else:
             want = "A:" + hx(v) if len(v) < 108 else "E"
         if impl != want:
-            return "a supported unix address does not resolve to exactly its first path/abstract socket (want %s)" % want
+            return "a supported unix address does not resolve to exactly its path/abstract socket (want %s)" % want
         return None
-    if impl != "E" and model == "E":
-        return "a string that is not a unix path/abstract address resolves instead of yielding an error"
-    if impl != "E" and impl != model:
-        return "resolves to a socket the address does not name"
+    if impl != "E":
+        return "a string that is not an address of the supported kind resolves instead of yielding an error"
     return None
 
 
@@ -541,7 +544,7 @@ def run(ctx):
     ctx.rule = ("addresses: fixed boundary list, grammar-generated unix addresses (keys path/abstract/other in any order, values among "
                 "existing and missing scratch paths, empty, with '=' ':' ';', non-ASCII, 106..109 and 300 bytes) and their single mutations "
                 "(missing ':', other transports, pairs without '=', empty values, repeated/reordered pairs, truncation, ';' lists, non-UTF-8 "
-                "bytes), resolved through DBUS_SESSION_BUS_ADDRESS; non-trivial = starts with 'unix:' and has a path/abstract key. "
+                "bytes), resolved through DBUS_SESSION_BUS_ADDRESS and judged by an independent reading of the grammar (no ';', every piece key=value, exactly one path|abstract key, non-empty value); non-trivial = starts with 'unix:' and has a path/abstract key. "
                 "utf-8: all 1- and 2-byte strings and boundary 3-/4-byte sequences; non-trivial = contains a byte >= 0x80. "
                 "handshakes: scripted servers - every reply class per step (OK.., REJECTED, ERROR, DATA, OKAY, garbage, non-UTF-8, empty, bare "
                 "CR/LF, lines of 509..1500 bytes), every 2-cut of each reply line, byte-wise and random k-cuts, close after k reply bytes for "
@@ -550,7 +553,7 @@ def run(ctx):
                 "distinct = distinct (uid, flag, script) / distinct byte strings")
     ctx.trusted = ["Coq 8.16.1 kernel (coqc), no native_compute", "extraction with ExtrOcamlBasic only, ocamlfind ocamlopt 4.13.1",
                    "ocaml/c17/driver.ml and harness/src/bin/c17.rs (I/O wrappers; the harness contains the scripted server)",
-                   "Conn/AddrProofs.v (unix_address, accepted_text, target) and Conn/AuthProofs.v (first_line, reply, conforming, "
+                   "Conn/AddrProofs.v (addr_grammar, unix_address, pair_ok) and Conn/AuthProofs.v (first_line, reply, conforming, "
                    "conversation, decimal_of) are my reading of the property text",
                    "Conn/AddrBase.v utf8_valid stands for std::str::from_utf8 (cross-checked here, not proved)"]
     ctx.assumptions = ["AF_UNIX stream socket: a blocking write of a handshake line is all-or-error; read returns 1..512 bytes of what the peer "
@@ -626,7 +629,6 @@ def _run(ctx, thorough, exe, drv, work):
     elif rc_m != 0 or len(out_m) != len(lines):
         tie(ctx, "extracted model driver crashed on the address stream", (err_m or "")[-2000:])
     else:
-        lenient = 0
         for inp, li, lm in zip(lines, out_i[1:], out_m):
             h = inp[2:]
             addr = None if h == "none" else unhx(h)
@@ -636,21 +638,17 @@ def _run(ctx, thorough, exe, drv, work):
             ctx.case(("a", h), nontrivial=nontrivial,
                      sample={"address": addr.decode("utf-8", "replace"), "impl": impl, "model": model} if nontrivial and len(ctx.samples) < 3 and b"," in addr else None)
             ctx.count("addr:" + ("path" if model.startswith("P:") else "abstract" if model.startswith("A:") else "error"))
-            if addr is not None and model != "E" and strict_supported(addr) is None:
-                lenient += 1
-            if impl != model:
+            if addr is not None and strict_supported(addr) is not None:
+                ctx.count("addr:in_grammar")
+            data = {"kind": "addr", "line": inp, "address": (addr or b"").decode("utf-8", "replace"), "impl": impl, "model": model,
+                    "queried_path_exists": (w.exists(q) if q is not None else None)}
+            why = judge_addr(w, addr, impl, model)
+            if why:
                 ctx.disagreements_checked += 1
-                why = judge_addr(w, addr if addr is not None else b"", impl, model)
-                data = {"kind": "addr", "line": inp, "address": (addr or b"").decode("utf-8", "replace"), "impl": impl, "model": model,
-                        "queried_path_exists": (w.exists(q) if q is not None else None)}
-                if why:
-                    ctx.violation(why, data)
-                else:
-                    tie(ctx, "correspondence: address resolution differs from the model on a string the property does not constrain", str(data))
-        ctx.extra["addresses_resolved_beyond_the_strict_grammar"] = (
-            "%d generated strings that are not k=v,... unix addresses resolve (model and implementation alike): the first path|abstract "
-            "pair wins and nothing after it is inspected, e.g. 'unix:abstract=k,garbage' -> abstract 'k', 'unix:abstract=a;tcp:host=h' -> "
-            "abstract 'a;tcp:host=h'; stated exactly by C17_addr_only / C17_addr_accepted_text" % lenient)
+                ctx.violation(why, data)
+            elif impl != model:
+                ctx.disagreements_checked += 1
+                tie(ctx, "correspondence: address resolution agrees with the property predicate but differs from the model", str(data))
     # get_system_bus_path
     rc_i, out_i, _ = run_proc([exe], ["y"], cwd=w.dir, env=env)
     want = "P:" + hx(b"/run/dbus/system_bus_socket") if os.path.exists("/run/dbus/system_bus_socket") else "E"
@@ -790,11 +788,11 @@ def replay(ctx, body):
             _, out_i, _ = run_proc([exe], [data["line"]], cwd=w.dir, env=env)
             _, out_m, _ = run_proc([drv], [data["line"]])
             h = data["line"][2:]
-            addr = b"" if h == "none" else unhx(h)
+            addr = None if h == "none" else unhx(h)
             impl = out_i[1].split(" ", 1)[1]
             model, _ = addr_expected(w, out_m[0])
-            why = judge_addr(w, addr, impl, model) if impl != model else None
-            print("address:", addr.decode("utf-8", "replace"))
+            why = judge_addr(w, addr, impl, model)
+            print("address:", (addr or b"<unset>").decode("utf-8", "replace"))
             print("impl :", impl)
             print("model:", model)
         elif data.get("kind") == "hs":
